@@ -16,3 +16,18 @@ add('C13', 'property-based testing + exhaustive enumeration: generated time-stam
     'online and offline, plus a complete enumeration of all sequences of <=3 (thorough 4) gaps over a boundary-heavy set. Counter compared with an exact rational count.',
     'Trusted: the reading "time stamps are in the default unit" (README); gaps are dyadic so the float comparison in rtamt is exact.',
     'DESIGN.md section 5 C13')
+add('C16', 'property-based testing: metamorphic relation between offline evaluation of a trace and of its extension (Hypothesis)',
+    'Generated formulas without unbounded future x traces x cut points; settled positions (t+h inside the prefix) must be identical in both runs. '
+    'Catches padding that leaks into settled positions and operators reading beyond their window.',
+    'Trusted: the harness horizon function (sum of upper bounds, next = 1).',
+    'DESIGN.md section 5 C16')
+add('C18', 'property-based testing: metamorphic law schemata (dualities, implication, nested-window, since/until expansion) evaluated by the same monitor (Hypothesis)',
+    'Both sides of each law are evaluated by the same monitor on generated operands/bounds/traces and must be exactly equal; needs no reference model, '
+    'so complementary errors in dual operators and errors that only appear under negation are visible.',
+    'Trusted: only the law statements; exact float equality (min/max/negation identities).',
+    'DESIGN.md section 5 C18')
+add('C07', 'property-based testing: monitor output sign vs an independent Boolean STL evaluator, and verdict invariance under generated perturbations smaller than |rho| (Hypothesis)',
+    'Sign soundness is checked at every sample of generated iff/xor-free formulas; the Lipschitz part perturbs every sample by up to 0.98|rho| '
+    'and re-evaluates the Boolean verdict. Catches sign-convention errors under not/implies and swapped predicate operands.',
+    'Trusted: vlib/refsem.py bool_dt (three-valued Boolean evaluator written independently of the robustness reference).',
+    'DESIGN.md section 5 C07')
